@@ -190,6 +190,91 @@ func hostileValidation(idx int, kw string, ht hType) *dg.Method {
 		HTTP:   &dg.HTTPMap{Routes: []dg.Route{{Verb: "POST", Path: fmt.Sprintf("/h%d", idx)}}}}
 }
 
+// degenerate-but-valid validation combinations (boundary cases of the example generator and of
+// the generated validation code), on every primitive incl. sized ints, in the body and in the query
+type degCase struct {
+	name string
+	v    dg.Validation
+}
+
+func degenerateCases(p string) []degCase {
+	var out []degCase
+	num := isNum(p)
+	unsigned := strings.HasPrefix(p, "UInt")
+	float := strings.HasPrefix(p, "Float")
+	switch {
+	case num:
+		out = append(out,
+			degCase{"min_eq_max", dg.Validation{Min: dg.Fp(3), Max: dg.Fp(3)}},
+			degCase{"min_eq_max_zero", dg.Validation{Min: dg.Fp(0), Max: dg.Fp(0)}},
+			degCase{"xmin_n_max_n1", dg.Validation{ExclMin: dg.Fp(4), Max: dg.Fp(5)}},
+			degCase{"min_n_xmax_n1", dg.Validation{Min: dg.Fp(4), ExclMax: dg.Fp(5)}},
+			degCase{"xmin_n_xmax_n2", dg.Validation{ExclMin: dg.Fp(4), ExclMax: dg.Fp(6)}},
+			degCase{"range_below_one", dg.Validation{Min: dg.Fp(0), Max: dg.Fp(0.5)}},
+			degCase{"enum_single", dg.Validation{Enum: []any{map[bool]any{true: 1.5, false: 1}[float]}}},
+			degCase{"huge_max", dg.Validation{Max: dg.Fp(1e18)}},
+			degCase{"min_large", dg.Validation{Min: dg.Fp(2147483647)}})
+		if !unsigned {
+			out = append(out, degCase{"max_negative", dg.Validation{Max: dg.Fp(-1)}},
+				degCase{"min_eq_max_negative", dg.Validation{Min: dg.Fp(-7), Max: dg.Fp(-7)}},
+				degCase{"xmax_zero", dg.Validation{ExclMax: dg.Fp(0)}})
+		}
+		if float {
+			out = append(out, degCase{"min_eq_max_fraction", dg.Validation{Min: dg.Fp(0.25), Max: dg.Fp(0.25)}})
+		}
+	case p == "String":
+		out = append(out,
+			degCase{"len_eq", dg.Validation{MinLen: dg.Ip(4), MaxLen: dg.Ip(4)}},
+			degCase{"minlen_zero", dg.Validation{MinLen: dg.Ip(0)}},
+			degCase{"maxlen_zero", dg.Validation{MaxLen: dg.Ip(0)}},
+			degCase{"len_zero_zero", dg.Validation{MinLen: dg.Ip(0), MaxLen: dg.Ip(0)}},
+			degCase{"minlen_huge", dg.Validation{MinLen: dg.Ip(5000)}},
+			degCase{"pattern_single", dg.Validation{Pattern: "^abc$"}},
+			degCase{"pattern_empty_only", dg.Validation{Pattern: "^$"}},
+			degCase{"pattern_and_len", dg.Validation{Pattern: "^[a-c]+$", MinLen: dg.Ip(2), MaxLen: dg.Ip(2)}},
+			degCase{"enum_single", dg.Validation{Enum: []any{"only"}}},
+			degCase{"enum_empty_string", dg.Validation{Enum: []any{""}}},
+			degCase{"format_and_len", dg.Validation{Format: "uuid", MinLen: dg.Ip(36), MaxLen: dg.Ip(36)}})
+	case p == "Bytes":
+		out = append(out,
+			degCase{"len_eq", dg.Validation{MinLen: dg.Ip(4), MaxLen: dg.Ip(4)}},
+			degCase{"minlen_zero", dg.Validation{MinLen: dg.Ip(0)}},
+			degCase{"maxlen_zero", dg.Validation{MaxLen: dg.Ip(0)}},
+			degCase{"minlen_huge", dg.Validation{MinLen: dg.Ip(5000)}})
+	case p == "Boolean":
+		out = append(out, degCase{"enum_single_false", dg.Validation{Enum: []any{false}}})
+	}
+	return out
+}
+
+func degenerateCollectionCases() []degCase {
+	return []degCase{
+		{"len_eq", dg.Validation{MinLen: dg.Ip(2), MaxLen: dg.Ip(2)}},
+		{"len_eq_one", dg.Validation{MinLen: dg.Ip(1), MaxLen: dg.Ip(1)}},
+		{"minlen_zero", dg.Validation{MinLen: dg.Ip(0)}},
+		{"maxlen_zero", dg.Validation{MaxLen: dg.Ip(0)}},
+		{"len_zero_zero", dg.Validation{MinLen: dg.Ip(0), MaxLen: dg.Ip(0)}},
+		{"minlen_large", dg.Validation{MinLen: dg.Ip(40)}},
+		{"maxlen_three", dg.Validation{MaxLen: dg.Ip(3)}},
+	}
+}
+
+// degenerateMethod: attribute x with the validation, in the body of payload and result ("body")
+// or as a query parameter ("query").
+func degenerateMethod(idx int, t dg.Type, v dg.Validation, where string) *dg.Method {
+	vv := v
+	f := &dg.Field{Name: "x", A: dg.Attr{T: t, V: &vv}}
+	m := &dg.Method{Name: fmt.Sprintf("m%d", idx), Payload: pa(dg.A(dg.Obj(f, dg.F("other", dg.Prim("String")))))}
+	h := &dg.HTTPMap{Routes: []dg.Route{{Verb: "POST", Path: fmt.Sprintf("/h%d", idx)}}}
+	if where == "query" {
+		h.Params = []dg.MapEntry{{Attr: "x"}}
+	} else {
+		m.Result = pa(dg.A(dg.Obj(&dg.Field{Name: "x", A: f.A, Required: true})))
+	}
+	m.HTTP = h
+	return m
+}
+
 var hostileSchemes = []dg.Scheme{{Kind: "basic", Name: "basic_sch"}, {Kind: "apikey", Name: "key_sch"},
 	{Kind: "jwt", Name: "jwt_sch", Scopes: []string{"api:read"}}, {Kind: "oauth2", Name: "oauth_sch", Scopes: []string{"api:read"}}}
 
@@ -264,6 +349,30 @@ func hostileDesigns() []DCase {
 		for _, ht := range hostileTypes() {
 			out = append(out, hostileSingle("h_"+kw+"_on_"+ht.name, hostileValidation(idx, kw, ht)))
 			idx++
+		}
+	}
+	for _, p := range allPrims {
+		for _, dc := range degenerateCases(p) {
+			for _, where := range []string{"body", "query"} {
+				if where == "query" && (p == "Bytes" || p == "Any") {
+					continue
+				}
+				out = append(out, hostileSingle("h_deg_"+where+"_"+lc(p)+"_"+dc.name, degenerateMethod(idx, dg.Prim(p), dc.v, where)))
+				idx++
+			}
+		}
+	}
+	str := dg.A(dg.Prim("String"))
+	for _, ct := range []hType{{"arr_string", dg.ArrayOf(str), nil}, {"arr_int", dg.ArrayOf(dg.A(dg.Prim("Int"))), nil}, {"arr_uobj", dg.ArrayOf(dg.A(dg.Ref("UObj"))), nil},
+		{"map_string_string", dg.MapOf(str, str), nil}, {"map_string_int", dg.MapOf(str, dg.A(dg.Prim("Int"))), nil}} {
+		for _, dc := range degenerateCollectionCases() {
+			for _, where := range []string{"body", "query"} {
+				if where == "query" && ct.name == "arr_uobj" {
+					continue
+				}
+				out = append(out, hostileSingle("h_deg_"+where+"_"+ct.name+"_"+dc.name, degenerateMethod(idx, ct.t, dc.v, where)))
+				idx++
+			}
 		}
 	}
 	ms, names := credentialMethods(idx)
